@@ -164,3 +164,95 @@ namespace vh
   }
   static Reg r3("rosparams", rosparamsCase);
 }  // namespace vh
+
+namespace vh
+{
+  // documented error conditions outside the builder/State (C20)
+  static std::string errCase(Tok& t)
+  {
+    std::string which = t.str();
+    if (which == "surface")
+    {
+      std::size_t nr = t.nat();
+      micm::Species sp("a");
+      sp.SetProperty<double>(micm::property_keys::GAS_DIFFUSION_COEFFICIENT, 1e-5);
+      sp.SetProperty<double>(micm::property_keys::MOLECULAR_WEIGHT, 0.05);
+      std::vector<micm::Species> reactants;
+      for (std::size_t i = 0; i < nr; ++i)
+        reactants.push_back(micm::Species("r" + std::to_string(i)));
+      micm::Process p = micm::Process::Create().SetReactants(reactants).SetProducts({}).SetRateConstant(
+          micm::SurfaceRateConstant({ .label_ = "s", .species_ = sp }));
+      return "errc ok reactants=" + std::to_string(p.reactants_.size());
+    }
+    if (which == "property")
+    {
+      std::size_t kind = t.nat();  // 0 double present, 1 double missing, 2 string missing, 3 bool missing, 4 int missing, 5 unsupported type
+      micm::Species sp("a", { { "molecular weight [kg mol-1]", 0.05 } });
+      switch (kind)
+      {
+        case 0: return "errc ok " + hexd(sp.GetProperty<double>("molecular weight [kg mol-1]"));
+        case 1: sp.GetProperty<double>("nosuch"); break;
+        case 2: sp.GetProperty<std::string>("nosuch"); break;
+        case 3: sp.GetProperty<bool>("nosuch"); break;
+        case 4: sp.GetProperty<int>("nosuch"); break;
+        default: sp.GetProperty<float>("molecular weight [kg mol-1]"); break;
+      }
+      return "errc ok";
+    }
+    if (which == "ragged")
+    {
+      std::size_t L = t.nat();
+      std::size_t rows = t.nat();
+      std::vector<std::vector<double>> v;
+      for (std::size_t i = 0; i < rows; ++i)
+        v.push_back(std::vector<double>(t.nat(), 1.0));
+      std::size_t r = 0, c = 0;
+      if (L == 0)
+      {
+        micm::Matrix<double> m(v);
+        r = m.NumRows();
+        c = m.NumColumns();
+      }
+      else
+      {
+        micm::VectorMatrix<double, 3> m(v);
+        r = m.NumRows();
+        c = m.NumColumns();
+      }
+      return "errc ok " + std::to_string(r) + "x" + std::to_string(c);
+    }
+    if (which == "rowassign")
+    {
+      std::size_t L = t.nat();
+      std::size_t cols = t.nat();
+      std::size_t len = t.nat();
+      std::vector<double> row(len, 2.0);
+      if (L == 0)
+      {
+        micm::Matrix<double> m(2, cols, 0.0);
+        m[1] = row;
+      }
+      else
+      {
+        micm::VectorMatrix<double, 3> m(4, cols, 0.0);
+        m[3] = row;
+      }
+      return "errc ok";
+    }
+    if (which == "missingblock")
+    {
+      std::size_t blocks = t.nat();
+      auto b = micm::SparseMatrix<double>::Create(2).SetNumberOfBlocks(blocks).WithElement(0, 0).WithElement(1, 1);
+      micm::SparseMatrix<double> m(b);
+      return "errc ok " + std::to_string(m.VectorIndex(1, 1));
+    }
+    if (which == "builderelem")
+    {
+      std::size_t n = t.nat(), x = t.nat(), y = t.nat();
+      auto b = micm::SparseMatrix<double>::Create(n).WithElement(x, y);
+      return "errc ok " + std::to_string(b.NumberOfElements());
+    }
+    return "bad-op";
+  }
+  static Reg r4("errc", errCase);
+}  // namespace vh
